@@ -112,6 +112,8 @@ func main() {
 	r.Bound("max_len_zero_init", maxLen)
 	r.Bound("max_len_seeded_init", maxSeeded)
 	r.Assume("every operation is guarded so that Go never panics (p.next only when p != nil, reslice only when len > 0, ...): every history is in the domain")
+	r.Assume("boxing a nil pointer into an interface is excluded (i=p stores nil when p == nil): Wa makes the interface itself nil where Go keeps a typed nil - a Go/Wa semantic difference of the C01 kind, not a memory-management event")
+	r.Assume("retain/release of addresses below $__heap_base (static data) are not heap events")
 	r.Assume("reference cycles may leak (reference counting); leaking is not a C11 violation")
 	r.Assume("the allocator itself (C10) is trusted to read/write only block headers: poisoning covers exactly the bytes requested from malloc")
 
